@@ -354,7 +354,16 @@ def gen_views(rng, profile):
     sc = {"fam": "m", "doc": enc(doc), "ops": []}
     live, its = set(), set()
     shadow = copy.deepcopy(doc)
+    from observe import final_doc
     for _ in range(rng.randint(2, 12)):
         op = gen_descr_op(rng, shadow) if profile == "descr" else gen_list_op(rng, shadow, live, its)
         sc["ops"].append(op)
+        try:
+            after = final_doc(sc)
+        except Exception:
+            after = None
+        if after is None or is_cyclic(after):
+            sc["ops"].pop()          # would make the document cyclic (C20's business)
+            continue
+        shadow = after
     return sc
